@@ -27,6 +27,7 @@ type callsScen struct {
 	ExtCtx  bool                `json:"extCtx"`
 	ExtId   bool                `json:"extId"`
 	Wrap    string              `json:"wrap"`
+	DeclB   string              `json:"declB"`
 	GenOK   bool                `json:"genOK"`
 	Model   string              `json:"model"`
 	Ins     []json.RawMessage   `json:"ins"`
@@ -60,10 +61,18 @@ func callsSource(i int, s callsScen) string {
 		params += ", ctx Ctx"
 	}
 	if s.RootErr {
-		fmt.Fprintf(&b, "\tConv(%s) (A2, error)\n}\n", params)
+		fmt.Fprintf(&b, "\tConv(%s) (A2, error)\n", params)
 	} else {
-		fmt.Fprintf(&b, "\tConv(%s) A2\n}\n", params)
+		fmt.Fprintf(&b, "\tConv(%s) A2\n", params)
 	}
+	// a second declared method for B -> B2, with or without a context parameter
+	switch s.DeclB {
+	case "plain":
+		b.WriteString("\tConvB(source B) B2\n")
+	case "ctx":
+		b.WriteString("\t// goverter:context ctx\n\tConvB(source B, ctx Ctx) B2\n")
+	}
+	b.WriteString("}\n")
 	b.WriteString("\nvar faults bool\n\nfunc SetFaults(on bool) { faults = on }\n\ntype ErrInj struct{ Tok string }\n\nfunc (e ErrInj) Error() string { return \"inj:\" + e.Tok }\n\n")
 	b.WriteString("func tok(v int) string {\n\tswitch v {\n\tcase 0:\n\t\treturn \"z\"\n\tcase math.MinInt:\n\t\treturn \"a\"\n\tcase math.MaxInt:\n\t\treturn \"b\"\n\t}\n\treturn \"?\"\n}\n\n")
 	eparams, mark := "v int", "\"E(\" + tok(v) + \")\""
@@ -343,7 +352,7 @@ func cmdCalls(args []string) {
 	defer obs.Close()
 	base := func(i int) map[string]any {
 		s := scens[i]
-		return map[string]any{"id": i, "dir": s.Dir, "extId": s.ExtId, "wrap": s.Wrap, "shape": s.Shape, "rootErr": s.RootErr, "extErr": s.ExtErr, "rootCtx": s.RootCtx, "extCtx": s.ExtCtx}
+		return map[string]any{"id": i, "dir": s.Dir, "extId": s.ExtId, "wrap": s.Wrap, "shape": s.Shape, "rootErr": s.RootErr, "extErr": s.ExtErr, "rootCtx": s.RootCtx, "extCtx": s.ExtCtx, "declB": s.DeclB}
 	}
 	nOK := 0
 	for i := range scens {
